@@ -38,6 +38,10 @@ type cliCase struct {
 	Ranges   []prange   `json:"ranges,omitempty"` // build seqboot --partition: the partition set (several ranges and strides per partition)
 	Layout   cli.Layout `json:"layout"`           // presentation of the input FASTA file
 	OutFile  bool       `json:"outfile"`          // the main output goes to a file (-o) instead of the standard output
+	Defaults bool       `json:"defaults"`         // no optional flag is given: the documented default values apply
+	Stdin    int        `json:"stdin"`            // 1: the alignment comes on the standard input (no -i); 2: the counts of rarefy do (no -c)
+	Phylip   bool       `json:"phylip"`           // -p: phylip input and output
+	Dest     int        `json:"dest"`             // sample sites -n k>1 -p: 0 = -o file (one file per sample), 1 = default output, 2 = -o - (all on the standard output)
 	Gz       bool       `json:"gz"`               // build seqboot --gz
 	Tar      bool       `json:"tar"`              // build seqboot --tar
 	Stale    bool       `json:"stale"`            // first run: every output file exists already, with a longer stale content
@@ -202,11 +206,82 @@ func genCLI(t *rapid.T) cliCase {
 		}
 		c.Flag = rapid.Bool().Draw(t, "shuforder")
 	}
+	// every optional flag left out: the values documented in docs/commands and in the flag help apply
+	if c.Cmd != "build seqboot" && rapid.IntRange(0, 5).Draw(t, "defaults") == 0 {
+		c.Defaults = true
+		if rapid.Bool().Draw(t, "longinput") {
+			// long enough for the default window of 10 sites and for proportions of 1 %
+			c.Ali.Rows = nil
+			for i := 0; i < 4; i++ {
+				b := make([]byte, 200)
+				for j := range b {
+					b[j] = cells[(i+j+off)%len(cells)]
+				}
+				c.Ali.Rows = append(c.Ali.Rows, gen.Row{Name: fmt.Sprintf("s%d", i), Seq: string(b)})
+			}
+			var kept []cnt
+			for _, x := range c.Counts {
+				if x.Name == "nosuch" || x.Name < "s4" {
+					kept = append(kept, x)
+				}
+			}
+			c.Counts = kept
+		}
+		c.A, c.B, c.N, c.K, c.Flag = 0, 0, 0, 1, false
+		switch c.Cmd {
+		case "shuffle sites":
+			c.A, c.B = 0.5, 0
+		case "shuffle rogue", "shuffle recomb":
+			c.A, c.B = 0.5, 0.5
+		case "shuffle swap":
+			c.A, c.B = 0.5, -1
+		case "sample seqs":
+			c.N = 1
+		case "sample sites":
+			c.N, c.Flag = 10, true
+		case "sample rarefy":
+			c.N = 1
+		case "mutate snvs":
+			c.A = 0.1
+		case "mutate gaps":
+			c.A, c.B = 0.1, 0.5
+		}
+	}
+	// sequence sets (--unaligned): rows of different lengths
+	if c.Flag && (c.Cmd == "shuffle seqs" || c.Cmd == "sample seqs" || c.Cmd == "sample rarefy") && rapid.Bool().Draw(t, "ragged") {
+		for i := range c.Ali.Rows {
+			if k := len(c.Ali.Rows[i].Seq) - i%3; k >= 1 {
+				c.Ali.Rows[i].Seq = c.Ali.Rows[i].Seq[:k]
+			}
+		}
+	}
+	// where the inputs come from, the format
+	switch rapid.IntRange(0, 7).Draw(t, "stdin") {
+	case 0:
+		c.Stdin = 1
+	case 1:
+		if c.Cmd == "sample rarefy" {
+			c.Stdin = 2
+		}
+	}
+	unalignedMode := c.Flag && (c.Cmd == "shuffle seqs" || c.Cmd == "sample seqs" || c.Cmd == "sample rarefy")
+	if !unalignedMode && rapid.IntRange(0, 4).Draw(t, "phylip") == 0 {
+		c.Phylip = true
+	}
+	if c.Cmd == "sample sites" && c.K > 1 && rapid.Bool().Draw(t, "phylip_samples") {
+		c.Phylip = true // several samples: files, or the standard output for phylip
+	}
+	if c.Cmd == "sample sites" && c.K > 1 && c.Phylip {
+		c.Dest = rapid.IntRange(0, 2).Draw(t, "dest")
+	}
 	// presentation of the input file, destination of the main output, stale output files
 	c.Layout = cli.DrawLayout(t)
 	c.Stale = rapid.IntRange(0, 2).Draw(t, "stale") == 0
 	if c.Cmd != "build seqboot" && !(c.Cmd == "sample sites" && c.K > 1) {
 		c.OutFile = rapid.IntRange(0, 2).Draw(t, "outfile") == 0
+	}
+	if c.Defaults {
+		c.OutFile = false
 	}
 	return c
 }
@@ -222,14 +297,32 @@ func runCLI(dir string, c cliCase, threads int, stale bool) (cliRun, []string) {
 		panic(err)
 	}
 	in := filepath.Join(work, "in.fa")
-	os.WriteFile(in, []byte(cli.FastaLayout(c.Ali.Rows, c.Layout)), 0o644)
+	input := cli.FastaLayout(c.Ali.Rows, c.Layout)
+	if c.Phylip {
+		input = phylipText(c.Ali.Rows)
+	}
+	os.WriteFile(in, []byte(input), 0o644)
+	stdin := ""
 	// the files the command is asked to write (pre-created with stale content in a stale run)
 	var outputs []string
 	if c.OutFile {
 		outputs = append(outputs, "out.main")
 	}
 	words := strings.Fields(c.Cmd)
-	args := append(words, "-i", in, "--seed="+strconv.FormatInt(c.Seed, 10))
+	args := append(words, "--seed="+strconv.FormatInt(c.Seed, 10))
+	if c.Stdin == 1 {
+		stdin = input // -i is left to its default, the standard input
+	} else {
+		args = append(args, "-i", in)
+	}
+	if c.Phylip {
+		args = append(args, "-p")
+	}
+	ext := "fa"
+	if c.Phylip {
+		ext = "ph"
+	}
+	nfixed := 0 // arguments that are destinations, kept when the optional flags are left out
 	if c.Alphabet != "" {
 		args = append(args, "--alphabet", c.Alphabet)
 	}
@@ -239,18 +332,23 @@ func runCLI(dir string, c cliCase, threads int, stale bool) (cliRun, []string) {
 	if c.OutFile {
 		args = append(args, "-o", filepath.Join(work, "out.main"))
 	}
+	base := len(args)
 	switch c.Cmd {
 	case "shuffle seqs":
 		if c.Flag {
 			args = append(args, "--unaligned")
 		}
 	case "shuffle sites":
-		args = append(args, "-r", ff(c.A), "--rogue", ff(c.B), "--rogue-file", filepath.Join(work, "out.rogues"))
+		args = append(args, "--rogue-file", filepath.Join(work, "out.rogues"))
+		nfixed = 2
+		args = append(args, "-r", ff(c.A), "--rogue", ff(c.B))
 		if c.Flag {
 			args = append(args, "--stable-rogues")
 		}
 	case "shuffle rogue":
-		args = append(args, "-n", ff(c.A), "-l", ff(c.B), "--rogue-file", filepath.Join(work, "out.rogues"))
+		args = append(args, "--rogue-file", filepath.Join(work, "out.rogues"))
+		nfixed = 2
+		args = append(args, "-n", ff(c.A), "-l", ff(c.B))
 	case "shuffle recomb":
 		args = append(args, "-n", ff(c.A), "-l", ff(c.B))
 		if c.Flag {
@@ -271,8 +369,10 @@ func runCLI(dir string, c cliCase, threads int, stale bool) (cliRun, []string) {
 		if !c.Flag {
 			args = append(args, "--consecutive=false")
 		}
-		if c.K > 1 {
+		if c.K > 1 && c.Dest == 0 {
 			args = append(args, "-o", filepath.Join(work, "out.sub"))
+		} else if c.K > 1 && c.Dest == 2 {
+			args = append(args, "-o", "-")
 		}
 	case "sample rarefy":
 		var sb strings.Builder
@@ -281,7 +381,13 @@ func runCLI(dir string, c cliCase, threads int, stale bool) (cliRun, []string) {
 		}
 		cf := filepath.Join(work, "counts.txt")
 		os.WriteFile(cf, []byte(sb.String()), 0o644)
-		args = append(args, "-n", strconv.Itoa(c.N), "-c", cf)
+		if c.Stdin == 2 {
+			stdin = sb.String() // -c is left to its default, the standard input
+		} else {
+			args = append(args, "-c", cf)
+			nfixed = 2
+		}
+		args = append(args, "-n", strconv.Itoa(c.N))
 		if c.Flag {
 			args = append(args, "--unaligned")
 		}
@@ -311,16 +417,20 @@ func runCLI(dir string, c cliCase, threads int, stale bool) (cliRun, []string) {
 		case c.Gz:
 			args = append(args, "--gz")
 			for k := 0; k < c.K; k++ {
-				outputs = append(outputs, fmt.Sprintf("out.boot%d.fa.gz", k))
+				outputs = append(outputs, fmt.Sprintf("out.boot%d.%s.gz", k, ext))
 			}
 		default:
 			for k := 0; k < c.K; k++ {
-				outputs = append(outputs, fmt.Sprintf("out.boot%d.fa", k))
+				outputs = append(outputs, fmt.Sprintf("out.boot%d.%s", k, ext))
 			}
 		}
 		if c.Flag {
 			args = append(args, "-S")
 		}
+	}
+	if c.Defaults {
+		// only the destinations stay
+		args = args[:base+nfixed]
 	}
 	if strings.Contains(strings.Join(args, " "), "out.rogues") {
 		outputs = append(outputs, "out.rogues")
@@ -330,7 +440,8 @@ func runCLI(dir string, c cliCase, threads int, stale bool) (cliRun, []string) {
 			cli.StaleFile(filepath.Join(work, f), 40+7*i)
 		}
 	}
-	r := cliRun{res: cli.Run("", args...), files: map[string]string{}}
+	// run inside the scratch directory: a file written under a relative name lands there
+	r := cliRun{res: cli.RunIn(work, stdin, args...), files: map[string]string{}}
 	outs, _ := filepath.Glob(filepath.Join(work, "out.*"))
 	sort.Strings(outs)
 	for _, f := range outs {
@@ -427,6 +538,15 @@ func checkCLI(dir string) func(c cliCase) (pbt.Outcome, error) {
 		if c.OutFile {
 			o.Class("main output to a file")
 		}
+		if c.Defaults {
+			o.Class("optional flags left to their defaults")
+		}
+		if c.Stdin > 0 {
+			o.Class("input on the standard input (%d)", c.Stdin)
+		}
+		if c.Phylip {
+			o.Class("phylip in and out")
+		}
 		o.Class("cmd=%s", c.Cmd)
 		if c.Big != nil {
 			o.Class("seqboot: long alignment, many replicates, threads")
@@ -436,7 +556,7 @@ func checkCLI(dir string) func(c cliCase) (pbt.Outcome, error) {
 			return o, fmt.Errorf("goalign %v did not return", args)
 		}
 		// replay
-		if r1.res.Exit != r2.res.Exit || r1.res.Stdout != r2.res.Stdout {
+		if r1.res.Exit != r2.res.Exit || (r1.res.Exit == 0 && r1.res.Stdout != r2.res.Stdout) { // the text of an error message is not compared
 			return o, fmt.Errorf("goalign %v run twice with the same seed: exit %d / %d\n first : %q\n second: %q", args, r1.res.Exit, r2.res.Exit, r1.res.Stdout, r2.res.Stdout)
 		}
 		if len(r1.files) != len(r2.files) {
@@ -510,8 +630,19 @@ func checkCLI(dir string) func(c cliCase) (pbt.Outcome, error) {
 			if replicates, perr = parsePhylips(main); perr == nil && len(replicates) > 0 {
 				got = replicates[0]
 			}
+		} else if c.Phylip && (c.Cmd == "sample seqs" || (c.Cmd == "sample sites" && c.K > 1)) {
+			// several phylip alignments one after the other on the standard output
+			if replicates, perr = parsePhylips(main); perr == nil {
+				for _, rep := range replicates {
+					got = append(got, rep...)
+				}
+			}
 		} else {
-			got, perr = cli.ParseFasta(main)
+			got, perr = readAli(c, main)
+		}
+		if perr == errZeroPhylip {
+			o.Class("phylip output without columns: not judged")
+			return o, nil
 		}
 		if perr != nil {
 			return o, fmt.Errorf("goalign %v: unreadable output: %v", args, perr)
@@ -566,6 +697,14 @@ func checkCLI(dir string) func(c cliCase) (pbt.Outcome, error) {
 			var outs [][]gen.Row
 			if c.K == 1 {
 				outs = append(outs, got)
+			} else if c.Phylip && c.Dest != 0 {
+				// documented exception: phylip samples with the default output all go to the standard output
+				o.Class("sample sites -p -n k on the standard output")
+				if len(replicates) != c.K || len(r1.files) != 0 {
+					err = fmt.Errorf("%d samples requested, %d alignments on the standard output, files %v", c.K, len(replicates), keysOf(r1.files))
+					break
+				}
+				outs = replicates
 			} else {
 				if len(r1.files) != c.K {
 					err = fmt.Errorf("%d samples requested, %d files written", c.K, len(r1.files))
@@ -575,7 +714,11 @@ func checkCLI(dir string) func(c cliCase) (pbt.Outcome, error) {
 					found := false
 					for name, content := range r1.files {
 						if strings.HasPrefix(name, fmt.Sprintf("out.sub_%d.", k)) {
-							rows, e := cli.ParseFasta(content)
+							rows, e := readAli(c, content)
+							if e == errZeroPhylip {
+								o.Class("phylip output without columns: not judged")
+								return o, nil
+							}
 							if e != nil {
 								return o, fmt.Errorf("goalign %v: unreadable file %s: %v", args, name, e)
 							}
@@ -606,11 +749,19 @@ func checkCLI(dir string) func(c cliCase) (pbt.Outcome, error) {
 				break
 			}
 			for k := 0; k < c.K; k++ {
-				content, ok := r1.files[fmt.Sprintf("out.boot%d.fa", k)]
+				bext := "fa"
+				if c.Phylip {
+					bext = "ph"
+				}
+				content, ok := r1.files[fmt.Sprintf("out.boot%d.%s", k, bext)]
 				if !ok {
 					return o, fmt.Errorf("goalign %v: replicate %d not written (files %v)", args, k, keysOf(r1.files))
 				}
-				rows, e := cli.ParseFasta(content)
+				rows, e := readAli(c, content)
+				if e == errZeroPhylip {
+					o.Class("phylip output without columns: not judged")
+					return o, nil
+				}
 				if e != nil {
 					return o, fmt.Errorf("goalign %v: unreadable replicate %d: %v", args, k, e)
 				}
@@ -760,51 +911,104 @@ func invOutPartition(file string, orig, got []gen.Row, frac float64, part []int,
 	return nil
 }
 
+// errZeroPhylip: a phylip text of n > 0 rows and 0 columns does not name its rows: nothing to judge
+var errZeroPhylip = fmt.Errorf("phylip alignment without columns")
+
+// phylipText writes rows as a sequential phylip file
+func phylipText(rows []gen.Row) string {
+	var sb strings.Builder
+	fmt.Fprintf(&sb, "   %d   %d\n", len(rows), aliLen(rows))
+	for _, r := range rows {
+		sb.WriteString(r.Name + "  " + r.Seq + "\n")
+	}
+	return sb.String()
+}
+
+// readAli reads one alignment written by a command, FASTA or (with -p) phylip
+func readAli(c cliCase, text string) ([]gen.Row, error) {
+	if !c.Phylip {
+		return cli.ParseFasta(text)
+	}
+	reps, err := parsePhylips(text)
+	if err != nil {
+		return nil, err
+	}
+	switch len(reps) {
+	case 0:
+		return nil, nil
+	case 1:
+		return reps[0], nil
+	}
+	return nil, fmt.Errorf("%d alignments where one is expected", len(reps))
+}
+
 // parsePhylips is a minimal reader of concatenated sequential/interleaved phylip alignments whose
 // rows fit on one line (short alignments): header "n L", then n lines "name  blocks of residues"
 func parsePhylips(s string) ([][]gen.Row, error) {
 	var out [][]gen.Row
 	lines := strings.Split(s, "\n")
 	i := 0
-	for i < len(lines) {
-		f := strings.Fields(lines[i])
-		i++
-		if len(f) == 0 {
-			continue
+	next := func() ([]string, bool) { // fields of the next non-empty line
+		for i < len(lines) {
+			f := strings.Fields(lines[i])
+			i++
+			if len(f) > 0 {
+				return f, true
+			}
+		}
+		return nil, false
+	}
+	for {
+		f, ok := next()
+		if !ok {
+			return out, nil
 		}
 		if len(f) != 2 {
-			return nil, fmt.Errorf("phylip header expected, found %q", lines[i-1])
+			return nil, fmt.Errorf("phylip header expected, found %q", strings.Join(f, " "))
 		}
 		n, e1 := strconv.Atoi(f[0])
 		l, e2 := strconv.Atoi(f[1])
 		if e1 != nil || e2 != nil {
-			return nil, fmt.Errorf("phylip header expected, found %q", lines[i-1])
+			return nil, fmt.Errorf("phylip header expected, found %q", strings.Join(f, " "))
 		}
-		rows := make([]gen.Row, 0, n)
+		if l <= 0 && n > 0 {
+			// the phylip writer has no line for the rows of an alignment without columns
+			return nil, errZeroPhylip
+		}
+		rows := make([]gen.Row, n)
+		// first block: name and residues; further blocks (interleaved): residues only
 		for k := 0; k < n; k++ {
-			if i >= len(lines) {
+			g, ok := next()
+			if !ok {
 				return nil, fmt.Errorf("phylip alignment truncated: %d of %d rows", k, n)
 			}
-			g := strings.Fields(lines[i])
-			i++
-			if len(g) < 1 {
-				return nil, fmt.Errorf("empty line inside a phylip alignment")
+			rows[k] = gen.Row{Name: g[0], Seq: strings.Join(g[1:], "")}
+		}
+		for n > 0 && len(rows[0].Seq) < l {
+			for k := 0; k < n; k++ {
+				g, ok := next()
+				if !ok {
+					return nil, fmt.Errorf("phylip alignment truncated inside a block (row %d has %d of %d residues)", k, len(rows[k].Seq), l)
+				}
+				rows[k].Seq += strings.Join(g, "")
 			}
-			seq := strings.Join(g[1:], "")
-			if len(seq) != l {
-				return nil, fmt.Errorf("phylip row %q has %d residues, header says %d", g[0], len(seq), l)
+		}
+		for _, r := range rows {
+			if len(r.Seq) != l {
+				return nil, fmt.Errorf("phylip row %q has %d residues, header says %d", r.Name, len(r.Seq), l)
 			}
-			rows = append(rows, gen.Row{Name: g[0], Seq: seq})
 		}
 		out = append(out, rows)
 	}
-	return out, nil
 }
 
 // sameRun compares two executions byte for byte (exit status, standard output, output files)
 func sameRun(a, b cliRun) string {
 	if a.res.Exit != b.res.Exit {
 		return fmt.Sprintf("exit status %d / %d", a.res.Exit, b.res.Exit)
+	}
+	if a.res.Exit != 0 {
+		return "" // both refused: the text of the error message is not compared
 	}
 	if a.res.Stdout != b.res.Stdout {
 		return fmt.Sprintf("standard output differs\n first : %q\n second: %q", trunc(a.res.Stdout, 500), trunc(b.res.Stdout, 500))
@@ -843,4 +1047,110 @@ func TestCLI(t *testing.T) {
 	dir := cli.TempDir("c10cli")
 	defer os.RemoveAll(dir)
 	pbt.Run(t, genCLI, checkCLI(dir))
+}
+
+// ---- command line: the defaults of the flags that select the randomisation ------------------------------
+//
+// `shuffle swap` without --pos must draw its break point (default -1 = random), `sample sites` without
+// --consecutive draws the offset of a window: on fixed small inputs, over N hashed seeds, every break point
+// and every offset (the last one included) must be produced by the command itself.
+func TestCLISupport(t *testing.T) {
+	if cli.Binary() == "" {
+		t.Skip("no goalign binary")
+	}
+	if pbt.ReplayOnly() {
+		t.Skip("re-run the whole test: it is deterministic given VERIF_SEED")
+	}
+	base := int64(1)
+	if s := os.Getenv("VERIF_SEED"); s != "" {
+		if v, err := strconv.ParseInt(s, 10, 64); err == nil {
+			base = v
+		}
+	}
+	dir := cli.TempDir("c10clisupport")
+	defer os.RemoveAll(dir)
+	type check struct {
+		name string
+		rows []gen.Row
+		args []string
+		all  []string
+		pmin float64
+		key  func(rows, got []gen.Row) string
+	}
+	swapRows := latin(2, 5, distinctCells)
+	siteRows := latin(2, 4, distinctCells)
+	checks := []check{
+		{"shuffle swap -r 1 (break point left to its default)", swapRows, []string{"shuffle", "swap", "-r", "1"},
+			[]string{"break 0", "break 1", "break 2", "break 3", "break 4"}, 1.0 / 5,
+			func(rows, got []gen.Row) string {
+				if len(got) != 2 {
+					return "unreadable"
+				}
+				d := diffPositions(rows[0].Seq, got[0].Seq)
+				if len(d) == 0 {
+					return "unchanged"
+				}
+				return fmt.Sprintf("break %d", d[0])
+			}},
+		{"sample sites -l 2 (consecutive by default)", siteRows, []string{"sample", "sites", "-l", "2"},
+			[]string{"offset 0", "offset 1", "offset 2"}, 1.0 / 3,
+			func(rows, got []gen.Row) string {
+				if len(got) != 2 || len(got[0].Seq) != 2 {
+					return "unreadable"
+				}
+				o := strings.IndexByte(rows[0].Seq, got[0].Seq[0])
+				if o < 0 || o+2 > 4 || rows[0].Seq[o:o+2] != got[0].Seq {
+					return "not a window"
+				}
+				return fmt.Sprintf("offset %d", o)
+			}},
+	}
+	for _, ck := range checks {
+		in := cli.TempFile(dir, ".fa", cli.Fasta(ck.rows))
+		n := needSeeds(len(ck.all), ck.pmin)
+		admissible := map[string]bool{}
+		for _, a := range ck.all {
+			admissible[a] = true
+		}
+		seen := map[string]bool{}
+		h := nameHash(ck.name)
+		for i := 0; i < n; i++ {
+			seed := int64(splitmix(uint64(base)*0x100000001b3^h+uint64(i)) >> 2)
+			args := append(append([]string{}, ck.args...), "-i", in, "--alphabet", "aa", "--seed="+strconv.FormatInt(seed, 10))
+			r := cli.RunIn(dir, "", args...)
+			cs := supportCase{Sub: ck.name, Base: base, Seeds: n, Seed: seed}
+			if r.Exit != 0 {
+				pbt.Fail(t, cs, "goalign %v: exit %d, stderr %q", args, r.Exit, trunc(r.Stderr, 300))
+				return
+			}
+			got, err := cli.ParseFasta(r.Stdout)
+			k := "unreadable"
+			if err == nil {
+				k = ck.key(ck.rows, got)
+			}
+			if !admissible[k] {
+				pbt.Fail(t, cs, "goalign %v: outcome %q is not one of the admissible outcomes %v\n output: %q", args, k, ck.all, r.Stdout)
+				return
+			}
+			seen[k] = true
+			var o pbt.Outcome
+			o.NonTrivial = true
+			o.Key = fmt.Sprintf("%s/%d", ck.name, seed)
+			o.Class("cli support: %s", ck.name)
+			pbt.Note(t, cs, o)
+		}
+		var missing []string
+		for _, a := range ck.all {
+			if !seen[a] {
+				missing = append(missing, a)
+			}
+		}
+		if len(missing) > 0 {
+			pbt.Fail(t, supportCase{Sub: ck.name, Base: base, Seeds: n, Missing: missing},
+				"goalign %v: %d of %d admissible outcomes were never produced in %d runs with different seeds (each has probability >= %.3g per run on correct code; missing one has probability < 1e-30): %v",
+				ck.args, len(missing), len(ck.all), n, ck.pmin, missing)
+			return
+		}
+	}
+	pbt.Complete(t)
 }
